@@ -243,10 +243,6 @@ package service
 // ---------------------------------------------------------------------------------------------
 // Miner registry and refund queue as seen from the EVM's stake opcodes (C12): they read and write the account
 // database, i.e. the world state (the version ghost of the vm package).
-//@ func MinerManager.GetMinerIdByAccount
-//@   option trusted
-//@   modifies nothing
-
 //@ func MinerManager.GetMiner
 //@   option trusted
 //@   modifies nothing
@@ -320,3 +316,51 @@ package service
 //@   option trusted
 //@   ensures typeid(result) != 0
 //@   modifies nothing
+
+// ---------------------------------------------------------------------------------------------
+// Miner registry (C20). The registry of one miner type is iterated through the account trie: abstractly a
+// finite sequence of records - seqRec(s,k) is the k-th decoded record (0: undecodable entry), seqErr(s,k)
+// whether the iterator reports an error for it (an ABORTED miner is a valid record WITH an error). An iterator
+// object walks the sequence regSeq(type) from position -1.
+//@ ghost itpos (Array Int Int)
+//@ ghost itseq (Array Int Int)
+//@ spec abstract fn regSeq(t byte) Int
+//@ spec abstract fn seqLen(s Int) Int
+//@ spec abstract fn seqRec(s Int, k Int) Int
+//@ spec abstract fn seqErr(s Int, k Int) bool
+
+//@ func MinerManager.minerIterator
+//@   option trusted
+//@   ensures result != nil && fresh(result) && @select(ghost(itpos), ref(result)) == 0 - 1 && @select(ghost(itseq), ref(result)) == regSeq(minerType)
+//@   ensures forall i Int :: i != ref(result) ==> @select(ghost(itpos), i) == @select(old(ghost(itpos)), i) && @select(ghost(itseq), i) == @select(old(ghost(itseq)), i)
+//@   modifies ghost(itpos), ghost(itseq)
+
+//@ func MinerIterator.Next
+//@   option trusted
+//@   requires mi != nil
+//@   ensures ghost(itpos) == @store(old(ghost(itpos)), ref(mi), @select(old(ghost(itpos)), ref(mi)) + 1)
+//@   ensures result == (@select(ghost(itpos), ref(mi)) < seqLen(@select(ghost(itseq), ref(mi))))
+//@   modifies ghost(itpos)
+
+//@ func MinerIterator.Current
+//@   option trusted
+//@   requires mi != nil
+//@   ensures ref(result0) == seqRec(@select(ghost(itseq), ref(mi)), @select(ghost(itpos), ref(mi)))
+//@   ensures (result1 != nil) == seqErr(@select(ghost(itseq), ref(mi)), @select(ghost(itpos), ref(mi))) || result0 == nil
+//@   ensures result0 != nil ==> len(result0.Id) > 0
+//@   modifies nothing
+
+// Lookup by account: every decodable record of the validator and of the proposer registry is considered,
+// whatever its status - a record whose account is the one asked for is found.
+//@ spec macro fn noMatch(t byte, upto Int, acc Bytes) bool = forall k Int :: 0 <= k && k <= upto && k < seqLen(regSeq(t)) && seqRec(regSeq(t), k) != 0 ==> bytes(ptr(types.Miner, seqRec(regSeq(t), k)).Account) != acc
+//@ func MinerManager.GetMinerIdByAccount
+//@   property C20
+//@   requires mm != nil && seqLen(regSeq(common.MinerTypeValidator)) >= 0 && seqLen(regSeq(common.MinerTypeProposer)) >= 0
+//@   loop 0: invariant iterator != nil && @select(ghost(itseq), ref(iterator)) == regSeq(common.MinerTypeValidator) && @select(ghost(itpos), ref(iterator)) >= 0 - 1
+//@   loop 0: invariant noMatch(common.MinerTypeValidator, @select(ghost(itpos), ref(iterator)), old(bytes(account)))
+//@   loop 1: invariant iterator != nil && @select(ghost(itseq), ref(iterator)) == regSeq(common.MinerTypeProposer) && @select(ghost(itpos), ref(iterator)) >= 0 - 1
+//@   loop 1: invariant noMatch(common.MinerTypeValidator, seqLen(regSeq(common.MinerTypeValidator)), old(bytes(account)))
+//@   loop 1: invariant noMatch(common.MinerTypeProposer, @select(ghost(itpos), ref(iterator)), old(bytes(account)))
+//@   ensures [validators] result == nil ==> noMatch(common.MinerTypeValidator, seqLen(regSeq(common.MinerTypeValidator)), old(bytes(account)))
+//@   ensures [proposers]  result == nil ==> noMatch(common.MinerTypeProposer, seqLen(regSeq(common.MinerTypeProposer)), old(bytes(account)))
+//@   ensures [reads]      ghost(stver) == old(ghost(stver))
